@@ -2,7 +2,7 @@
 allocator is the guarded one, with the element-aware alignment), R-GROUP-CONSTS (per back-end
 width/stride/mask constants), R-HASH-TAINT (caller-supplied hash bits never index unmasked)."""
 from core import callee_path, last_field, rv_operands
-from cond import sources, branch_sources, controlling_sources
+from cond import expr_key, sources, branch_sources, controlling_sources
 from rules.base import Result, where, line_of
 
 ARITH_FNS = (
@@ -119,8 +119,13 @@ def r_arith(F, V):
                 ok = False
                 why = "no comparison of the length against an isize::MAX-derived bound controls the call"
                 for (b, s, S) in controlling_sources(body, i):
-                    if not any((c.get("val") or 0) >= 2 ** 62 for c in S.consts):
+                    if not any(isinstance(c.get("val"), int) and c["val"] >= 2 ** 62 for c in S.consts):
                         continue
+                    big = [c["val"] for c in S.consts if isinstance(c.get("val"), int) and c["val"] >= 2 ** 62]
+                    if any(v > 2 ** 63 - 1 for v in big):
+                        why = "the bound the length is compared against is derived from %s, which is larger than isize::MAX: sizes between isize::MAX and usize::MAX are accepted and an invalid Layout reaches the allocator" % max(big)
+                        ok = False
+                        break
                     tt = body.term(b)
                     d = body.single_def(tt["discr"]["p"]["l"]) if tt["discr"]["k"] in ("copy", "move") else None
                     if d and d[0] == "stmt" and d[3]["rv"]["k"] == "binop" and d[3]["rv"]["op"] in ("Gt", "Ge", "Lt", "Le"):
@@ -166,6 +171,21 @@ def r_arith(F, V):
                 else:
                     R.violation(key, body, "Layout::from_size_align_unchecked: %s (an over-large layout would reach the allocator: invalid Layout is undefined behaviour)" % why, line=line_of(body, bb=i))
                     R.inst(key, why, "violation", True, where(body, bb=i))
+                # the data part is padded up to the SAME alignment: every `x - 1` used for rounding is ctrl_align - 1
+                import re as _re
+                keyp = "raw::TableLayout::calculate_layout_for|padding"
+                subs = []
+                for i2, k2, s2 in body.stmts():
+                    if s2["k"] == "assign" and s2["rv"]["k"] == "binop" and s2["rv"]["op"].startswith("Sub") and s2["rv"]["b"]["k"] == "const" and s2["rv"]["b"].get("val") == 1:
+                        subs.append(expr_key(body, s2["rv"]["a"]))
+                if subs:
+                    badp = [x for x in subs if not x.endswith("ctrl_align")]
+                    if badp:
+                        R.violation(keyp, body, "the rounding of the data part uses `%s - 1` instead of `ctrl_align - 1`: for element types aligned more strictly than the group width the control bytes "
+                                    "(and with them every bucket) start at an address that is not a multiple of the element alignment" % badp[0][:40], line=line_of(body, bb=i))
+                        R.inst(keyp, "padding not by ctrl_align", "violation", True, where(body, bb=i))
+                    else:
+                        R.inst(keyp, "all %d rounding terms are ctrl_align - 1" % len(subs), "ok", True, where(body, bb=i))
                 # alignment operand is the table layout's ctrl_align
                 S = sources(body, t["args"][1]) if len(t["args"]) > 1 else None
                 key2 = "raw::TableLayout::calculate_layout_for|align"
@@ -205,6 +225,17 @@ def r_arith(F, V):
                                     stray.append("a copied value not from Layout::align")
                             else:
                                 stray.append("a computed value (%s)" % rvd["k"])
+                # direction: the alignment of T is chosen on the edge where it is the larger one
+                if not stray and op["k"] in ("copy", "move") and not op["p"].get("proj"):
+                    from rules.lookup import _relation
+                    is_al = lambda S_: any(c.endswith("Layout::align") for c in S_.calls)
+                    is_w = lambda S_: (any(c.get("val") == W or "WIDTH" in (c.get("def") or "") for c in S_.consts)) and not S_.calls
+                    for d in body.defs.get(op["p"]["l"], ()):
+                        if d[0] == "call" and (callee_path(d[3]) or "").endswith("Layout::align"):
+                            rels = [_relation(body, bb, sx, is_al, is_w) for (bb, sx) in body.control_deps_trans(d[1], "all")]
+                            rels = [r for r in rels if r]
+                            if rels and not any(r in (">", ">=") for r in rels):
+                                stray.append("the element alignment is selected when it is the SMALLER one (align %s WIDTH): ctrl_align becomes min instead of max" % rels[0])
                 if stray:
                     R.violation(key, body, "TableLayout.ctrl_align can take a value that is neither the element alignment nor the group width (%s): the allocation alignment would not be a valid "
                                 "power-of-two alignment covering both the elements and the control groups" % ", ".join(sorted(set(stray))), line=line_of(body, stmt=s))
